@@ -125,7 +125,9 @@ impl Property for C05 {
         vec!["connected", "stolen_request", "corrupt_request", "cross_response", "cross_same_id", "cross_other_server", "replay_response", "expired_at_request", "near_expiry", "bad_token_request", "stolen_request_small_server", "protocol_rewritten", "second_public_address", "denied_binds_token", "kick"]
     }
     fn run_choices(&self, ctx: &mut Ctx) -> Outcome {
-        let mut nw = NetWorld::new(ctx.src.u16() as u64);
+        let seed16 = ctx.src.u16() as u64;
+        let idb = id_base(seed16);
+        let mut nw = NetWorld::new(seed16);
         // small client limits too: tables sized from the limit (token entries, slots) fill up within a case
         let max0 = ctx.src.pick(&[4usize, 4, 1, 2, 3]);
         nw.servers.push(mk_server(0, 1, PROTO, max0, nw.now, true));
@@ -136,7 +138,7 @@ impl Property for C05 {
         for i in 0..n {
             let flaw = [Flaw::None, Flaw::ForeignKey, Flaw::ForeignProtocol, Flaw::WrongHost, Flaw::MixedHost][ctx.src.weighted(&[12, 2, 2, 2, 3])];
             // identities collide on purpose: same id with other user data
-            let client_id = 200 + ctx.src.below(4) as u64;
+            let client_id = idb + 200 + ctx.src.below(4) as u64;
             let user = i as u64;
             let expire_seconds = if ctx.src.chance(90) { 1 + ctx.src.below(4) as u64 } else { 600 };
             let second_server = ctx.src.chance(50);
